@@ -319,6 +319,17 @@ func init() {
 		reg(&explore.Suite{Name: fmt.Sprintf("cutlease3-d%d", d), Cfg: sim.Config{Voters: 3, Timed: true}, Seed: cutLeader, Monitors: leaseMonitors,
 			Budget: sim.Budget{Writes: 2, LeaseReads: 2, Cuts: 1, Lags: 1, Steps: 14, Reorders: -1, MsgSteps: 1, Deviations: d}})
 	}
+	// S-termgap (C15): n1 is two terms ahead (it granted two real votes to n2, whose
+	// replies were lost) but behind in the log; n2 is down; n0, the only electable
+	// node, has restarted as a follower of term 1 and can learn the newer term only
+	// from the answers to its own vote requests.
+	termGap := append(append([]sim.Event{}, seedLeader3...), sim.MustParse(
+		"cut n0 a=1", "write n0", "rt 0>2:AE#2", "rt 0>2:AE#3", "cut n0 a=2", "timeout n2", "rt 2>1:RV#0 a=2", "deliver 2>1:RV#1",
+		"timeout n2", "deliver 2>1:RV#2 a=2", "crash n2", "crash n0", "restart n0", "drop 0>1:AE#2", "drop 0>1:AE#3")...)
+	for d := 0; d <= 3; d++ {
+		reg(&explore.Suite{Name: fmt.Sprintf("live-termgap3-d%d", d), Cfg: sim.Config{Voters: 3}, Seed: termGap, Leaf: monitor.Continuation(150),
+			Budget: sim.Budget{Timeouts: 1, Elapses: 1, Writes: 1, Cuts: 1, Reorders: -1, Splits: 1, Deviations: d}})
+	}
 	// C15: exploration families with the fault-free continuation evaluated on
 	// every leaf (quick) or every distinct state (thorough, suffix "all").
 	for d := 0; d <= 4; d++ {
@@ -370,7 +381,7 @@ func init() {
 	}
 	for d := 0; d <= 4; d++ {
 		reg(&explore.Suite{Name: fmt.Sprintf("nvread5-d%d", d), Cfg: sim.Config{Voters: 3, Spares: 2}, Seed: seedNonVoters, Monitors: memberMonitors,
-			Budget: sim.Budget{Timeouts: 1, Elapses: 1, Beats: 1, Writes: 1, Reads: 2, Cuts: 1, Reorders: -1, Splits: 1, Deviations: d}})
+			Budget: sim.Budget{Beats: 1, Writes: 1, Reads: 1, Reorders: -1, Splits: 1, Deviations: d}})
 	}
 	// small unbounded spaces (no deviation bound): every order within the budgets
 	reg(&explore.Suite{Name: "all2", Cfg: sim.Config{Voters: 2},
